@@ -324,6 +324,7 @@ def runCase (env : Env) (c : Json) : Json :=
     jObj [("r", jS "numfmt"), ("s", jStr n.render),
           ("p", match Json.parse txt with | some v => encodeData v | none => jS "ERR")]
   | some "session" => runSession env c
+  | some "escape" => jObj [("r", jS "esc"), ("out", jStr (escapeHtml ((fldStr c "s").getD [])))]
   | _ => jObj [("r", jS "panic"), ("site", jS "driver.unknown_kind")]
 
 def processLine (env : Env) (line : String) : String :=
